@@ -202,6 +202,52 @@ impl KindFn for Cell<'_> {
                 }
             }
             drop(it);
+            // "try as S, then fall back": whatever is read next on the SAME reader never yields a value of a type the
+            // file does not hold, and a mismatch error still names (S, T)
+            for attempt in 0..2 {
+                let mut it = r.iter_shapes_as::<S>();
+                for _ in 0..self.n + 1 {
+                    match it.next() {
+                        None => break,
+                        Some(Ok(v)) => ensure!(
+                            s_ty == self.actual && self.generic.contains(&v.view()),
+                            "wrong-type-yielded",
+                            "after a failed typed read, iter_shapes_as::<{}> on the same reader (attempt {}) yields a value for a {} file",
+                            s_ty.name(),
+                            attempt,
+                            self.actual.name()
+                        ),
+                        Some(Err(e)) => {
+                            if let Some(m) = mismatch_of(&e) {
+                                ensure!(
+                                    m == (s_ty, self.actual),
+                                    "typed-error",
+                                    "after a failed typed read, iter_shapes_as::<{}> on the same reader reports {:?} for a {} file",
+                                    s_ty.name(),
+                                    e,
+                                    self.actual.name()
+                                );
+                            }
+                            break;
+                        }
+                    }
+                }
+            }
+            // and the generic fallback on the same reader only yields shapes of the file's type
+            let mut it = r.iter_shapes();
+            for _ in 0..self.n + 1 {
+                match it.next() {
+                    None | Some(Err(_)) => break,
+                    Some(Ok(s)) => ensure!(
+                        variant_ty(&s) == self.actual && self.generic.contains(&view_shape(&s)),
+                        "wrong-type-yielded",
+                        "after a failed typed read as {}, iter_shapes on the same reader yields a {:?} from a {} file",
+                        s_ty.name(),
+                        variant_ty(&s),
+                        self.actual.name()
+                    ),
+                }
+            }
             if with_shx && self.n > 0 {
                 let mut r = open()?;
                 match r.read_nth_shape_as::<S>(self.n - 1) {
